@@ -153,7 +153,8 @@ ASSUMPTIONS = [
     "(documented 'always recover'); only the events after it are judged",
 ]
 MIN_COUNTERS = {
-    'quick': {'grid_queries_checked': 5000, 'contract_next_time_on_grid': 5000,
+    'quick': {'restart_histories': 800, 'restart_histories_meter_change_inside': 300,
+              'grid_queries_checked': 5000, 'contract_next_time_on_grid': 5000,
               'contract_secs2beats': 5000, 'contract_tempo-setter': 300,
               'contract_etempo': 100, 'contract_beats-setter': 100,
               'contract_beats_per_bar-setter': 100, 'observations': 1000,
@@ -226,7 +227,8 @@ MIN_COUNTERS = {
               'rtm_plain_changes_applied_after_a_routine_change_etempo': 40,
               'rtm_plain_changes_applied_after_a_routine_change_tempo': 40,
               'rtm_plain_changes_applied_after_a_routine_change_beats': 25},
-    'thorough': {'grid_queries_checked': 500000,
+    'thorough': {'restart_histories': 20000, 'restart_histories_meter_change_inside': 8000,
+                 'grid_queries_checked': 500000,
                  'contract_next_time_on_grid': 500000,
                  'observations': 100000, 'wake_times_checked': 100000,
                  'play_first_wakes_checked': 50000,
@@ -303,6 +305,15 @@ def plan(tier, seed):
     shards.append({'name': 'rtn0', 'mode': 'rt', 'kind': 'rtn',
                    'first_case': 0, 'n': n_rtn, 'secs': rsecs,
                    'hard_timeout': rsecs + 120})
+    # routines that restart their function while scheduled (YieldAndReset), change
+    # the meter after the restart and are resumed / played on the grid from
+    # another routine (vf/c11_restart.py: the histories of C11's restart shard
+    # that touch the grid; judged here: the meter change must be accepted inside
+    # the routine and every wake-up lies on the beat the grid gives)
+    n_rs, ssecs = (4000, 20) if tier == 'quick' else (300_000, 170)
+    shards.append({'name': 'restart0', 'mode': 'nrt', 'kind': 'restart',
+                   'first_case': 0, 'n': n_rs, 'secs': ssecs,
+                   'hard_timeout': ssecs + 120})
     return shards
 
 
@@ -335,6 +346,11 @@ def run_shard(spec, acc):
         # no contracts either: the sampling is the monitor
         from vf.c12_race import run_rtm
         run_rtm(spec, acc, sc)
+        return
+    if spec['shard']['kind'] == 'restart':
+        from vf.c11_restart import run_restart, touches_grid
+        run_restart(spec, acc, 'C12', judged=('call-refused/beats_per_bar', 'wake-up-'),
+                    only=touches_grid)
         return
     if spec['shard']['kind'] in ('near', 'rtn'):
         # no contracts (their tolerance is 1e-9): the exact oracle decides
